@@ -226,6 +226,12 @@ func (e *Engine) decide(st *State, c *Term) bool {
 	ff := e.sat(st, nc) != "unsat"
 	switch {
 	case ft && ff:
+		if forkStats != nil {
+			fn, fr := e.curFn(st)
+			if fr != nil && fr.ip < len(fr.block.Instrs) {
+				forkStats[fn+" @"+exprText(e.prog, fr.block.Instrs[fr.ip].Pos())+" "+fr.block.Instrs[fr.ip].String()]++
+			}
+		}
 		cl := st.clone()
 		cl.addPC(nc)
 		e.work = append(e.work, cl)
@@ -247,6 +253,9 @@ func (e *Engine) concretize(st *State, t *Term) uint64 {
 	if t.IsConst() {
 		return t.C
 	}
+	if v, ok := st.conc[t]; ok {
+		return v
+	}
 	for i := 0; ; i++ {
 		if i > 4096 {
 			panic(engineErr("concretize: too many values"))
@@ -260,6 +269,12 @@ func (e *Engine) concretize(st *State, t *Term) uint64 {
 		}
 		c := e.tb.Cmp("=", t, e.tb.BV(vals[0], t.W))
 		if e.decide(st, c) {
+			nc := make(map[*Term]uint64, len(st.conc)+1)
+			for k, v := range st.conc {
+				nc[k] = v
+			}
+			nc[t] = vals[0]
+			st.conc = nc
 			return vals[0]
 		}
 	}
@@ -591,8 +606,8 @@ func (e *Engine) pushFrame(st *State, th *Thread, fn *ssa.Function, args []Val, 
 	if fn.Blocks == nil {
 		panic(engineErr("no body: %s", fn.String()))
 	}
-	if len(th.frames) > 200 {
-		panic(engineErr("call depth > 200 in %s", fn.String()))
+	if len(th.frames) > 1200 {
+		panic(engineErr("call depth > 1200 in %s", fn.String()))
 	}
 	if !e.inInit {
 		e.funcs[fn.String()] = true
@@ -1161,4 +1176,33 @@ func (e *Engine) srcLine(pos token.Pos) string {
 		return ""
 	}
 	return strings.Join(strings.Fields(lines[p.Line-1]), " ")
+}
+
+var forkStats map[string]int
+
+func init() {
+	if os.Getenv("GSE_FORKS") != "" {
+		forkStats = map[string]int{}
+	}
+}
+
+func dumpForkStats() {
+	if forkStats == nil {
+		return
+	}
+	type kv struct {
+		k string
+		v int
+	}
+	var l []kv
+	for k, v := range forkStats {
+		l = append(l, kv{k, v})
+	}
+	sort.Slice(l, func(i, j int) bool { return l[i].v > l[j].v })
+	for i, x := range l {
+		if i > 25 {
+			break
+		}
+		fmt.Fprintf(os.Stderr, "FORKS %6d %s\n", x.v, x.k)
+	}
 }
